@@ -284,6 +284,34 @@ def rule_get(ms, clamp_present: bool) -> typing.List[dict]:
     return out
 
 
+def rule_copy_source(ms, clamp_present: bool) -> typing.List[dict]:
+    """R-C14-GET-SAT for copies whose *source* is a span built over a local (the setters copy out of an 8-byte image of the value):
+    the number of bits copied is bounded by what that source holds - by copyTo itself (it clamps the length to size()), or by the
+    length expression at the call (min with 64 / the saturation helper).  With neither, a length above the source's size reads past
+    the local and writes the surplus bits - stack garbage - into the destination."""
+    R = "R-C14-GET-SAT"
+    out = []
+    sat = {SATM}
+    for k, fn in ms.items():
+        if not k.startswith("bitspan::"):
+            continue
+        v = View(k, fn)
+        for s, t in v.terms():
+            for c in _mcalls(t):
+                if c[2] != "copyTo" or len(c[3]) != 2 or c[1] == THIS:
+                    continue
+                env = v.env(s.index)
+                n = _norm(inline_helpers(cast.substitute(c[3][1], env), ms))
+                while n[0] == "call" and n[1] in ("static_cast", "uint8_t") and len(n[2]) == 1:
+                    n = n[2][0]
+                ub = upper_bound(n, {}, sat)       # a bare uint8_t parameter (up to 255) is no bound for an 8-byte source
+                ok = clamp_present or (ub is not None and ub <= 64)
+                out.append(res(R, k, f"{k}: the length copied out of the value's byte image is bounded by the image", ok,
+                               f"length `{cast.show(n)}` is not limited to the 64 bits of the source and copyTo does not clamp to size(): "
+                               "a length above 64 copies bytes from behind the local into the destination"))
+    return out
+
+
 def rule_clamp(ms) -> typing.Tuple[bool, typing.List[dict]]:
     k = "const_bitspan::copyTo/2"
     if k not in ms:
@@ -543,6 +571,7 @@ def analyse(objs, text: str, point):
     out += rule_set_bound(ms)
     out += rule_exact_fit(ms)
     out += rule_get(ms, clamp)
+    out += rule_copy_source(ms, clamp)
     out += rule_shift_width(ms)
     out += rule_tail(ms)
     out += rule_narrow(ms)
